@@ -120,6 +120,8 @@ def chunk_descs(tier):
             tail = [array("z", 8)] if kn in ("size", "count") else []
             out.append(desc("little", decls + [packet("P", before + mk(w) + after + tail)], name="chunk_%s_%s" % (kn, pos)))
     # a reserved-only chunk written as two reserved fields, last and in the middle
+    out.append(desc("little", [packet("P", [reserved(8)])], name="chunk_reserved_only"))
+    out.append(desc("little", [packet("P", [count("x", 8), array("x", 8), reserved(8)])], name="chunk_reserved_only_after_array"))
     out.append(desc("little", [packet("P", [scalar("a", 8), reserved(1), reserved(7)])], name="chunk_reserved2_last"))
     out.append(desc("little", [packet("P", [scalar("a", 8), reserved(3), reserved(13), scalar("b", 8)])], name="chunk_reserved2_mid"))
     return out
